@@ -5,13 +5,17 @@ MC      MC_Sig0: Sig0.tla on itself -- every small section shape with/without a 
         layout fault is named, no proper prefix is accepted
 TV      one pipeline per shard, two trace-validation passes around the harness:
           sig0 record   seeded random messages (all section shapes, Compress on/off, ARCOUNT 0..3 and 255/256/257,
-                        37 octets .. ~8 kB, four validity windows, four signer names) x algorithms -> real SIG.Sign
+                        37 octets .. ~8 kB, four signer names; windows: wide, tight, expired, not yet valid and three
+                        INVERTED ones (inception > expiration: both past, both future, around now; >= 1 h margins))
+                        x algorithms -> real SIG.Sign.  Every run starts with six messages of 254, 255, 256, 257, 511,
+                        512 additional records and a window that holds (quick: first algorithm only)
           Trace_Sig0    pass 1: layout / ARCOUNT of each result; Sign must succeed; emits the signed octets, the
                         specified result with a placeholder signature and the tamper regions
           sig0 finish   (1) crypto/rsa|ecdsa|ed25519 verify the REAL signature over the SPEC's octets; (2) a second
                         signed message is completed from the specified result with a stdlib signature (independent
                         of SIG.Sign, so Verify is exercised even where Sign fails); (3) real Verify with right/wrong
-                        key, owner-name case variant, wrong owner, all windows -> "verify" events; (4) every single-bit
+                        key, owner-name case variant, wrong owner, the signer's KEY with a damaged public key (one octet
+                        short / long, empty, another algorithm's length), all windows -> "verify" events; (4) every single-bit
                         flip (message, SIG RDATA: must be rejected; SIG RR header: no panic) and every truncation >= 12
                         (must be rejected, no panic), directly and through Unpack
           Trace_Sig0    pass 2: Accept0(View(buf), key owner, now, primitive verdict) = what the real Verify said
@@ -49,13 +53,13 @@ def absorb_pass(ctx, tr, events, shard):
             ctx.candidate(k, "recorded %s event rejected by the specification" % e["ev"], dict(shard, id=e["id"], event=brief))
 
 
-def pipeline(ctx, binp, tag, seed, n, algs, only=None):
+def pipeline(ctx, binp, tag, seed, n, algs, only=None, ar=False):
     """record -> Trace_Sig0 -> finish -> Trace_Sig0.  Returns nothing; candidates go to ctx."""
-    shard = {"seed": seed, "n": n, "algs": algs}
+    shard = {"seed": seed, "n": n, "algs": algs, "ar": ar}
     ev = os.path.join(ctx.out, "sig0-%s-sign.ndjson" % tag)
     kf = os.path.join(ctx.out, "sig0-%s-keys.json" % tag)
     vf = os.path.join(ctx.out, "sig0-%s-verify.ndjson" % tag)
-    args = ["record", ev, kf, str(n), ",".join(algs)] + ([str(only)] if only is not None else [])
+    args = ["record", ev, kf, str(n), ",".join(algs), "1" if ar else "0"] + ([str(only)] if only is not None else [])
     s = ctx.run_json(binp, args, env={"VERIF_SEED": str(seed)}, timeout=3000)
     vp.absorb(ctx, s, traces=False)
     tr = ctx.tlc_trace("Trace_Sig0", ev, xmx="3g", timeout=3000)
@@ -81,10 +85,11 @@ def run(ctx):
     ctx.tlc("MC_Sig0", workers=2, xmx="3g", timeout=900)
     if ctx.quick:
         algs = PAIRS[ctx.seed % 3]
-        jobs = [lambda k=k: pipeline(ctx, binp, str(k), ctx.seed * 1000 + k, 20, algs) for k in range(2)]
+        # shard 0 starts with the six ARCOUNT-boundary messages (254..257, 511, 512 additional records, valid window)
+        jobs = [lambda k=k: pipeline(ctx, binp, str(k), ctx.seed * 1000 + k, 20, algs, ar=(k == 0)) for k in range(2)]
         vp.parallel(jobs, maxpar=2)
     else:
-        jobs = [lambda k=k: pipeline(ctx, binp, str(k), ctx.seed * 1000 + k, 50, ALL) for k in range(12)]
+        jobs = [lambda k=k: pipeline(ctx, binp, str(k), ctx.seed * 1000 + k, 50, ALL, ar=(k % 4 == 0)) for k in range(12)]
         vp.parallel(jobs, maxpar=4)
     ctx.assumptions += [
         "the message octets are an input (m.Pack() taken just before Sign); the wire codec is property C01",
@@ -108,7 +113,7 @@ def replay(ctx, path):
     case, key = rp["case"], rp["key"]
     if not all(k in case for k in ("seed", "n", "algs", "id")):
         raise vp.Infra("replay file has no (seed, n, algs, id)")
-    pipeline(ctx, binp, "replay", case["seed"], case["n"], case["algs"], only=case["id"])
+    pipeline(ctx, binp, "replay", case["seed"], case["n"], case["algs"], only=case["id"], ar=case.get("ar", False))
     if any(c["key"] == key for c in ctx.cands):
         print("VIOLATION property=%s replay=%s" % (ctx.id, path))
         return 1
